@@ -244,6 +244,12 @@ def rule_capacity(prog, res):
             # all characters are offered in order: the loop is driven by the input iterator; try_push is the only mutation
             muts = [callee_of(tt) for bb, tt in f.calls() if fa.call_args(bb) and fa.call_args(bb)[0].op == "ref" and ty_of(fa.call_args(bb)[0]) is None
                     and callee_of(tt) not in (tp,) and "next" not in callee_of(tt)]
+        if not ok and path.endswith("From<&str>>::from"):
+            # = value.chars().collect(): the loop is the one of FromIterator<char> (checked above)
+            calls = [callee_of(tt) for bb, tt in f.calls()]
+            if sorted(c.rsplit("::", 1)[-1] for c in calls if c) == ["chars", "collect"] and not f.loops():
+                ok = True
+                d = "= chars().collect() (uses from_iter)"
         res.ob("X-cap", "%s | keeps the longest prefix of whole characters that fits (stops at the first refusal)" % path, ok, d, f.loc, sample=d)
     # From<&str> for Df88591String = value.chars().collect()
     f = prog.fn("<util::Df88591String<N> as core::convert::From<&str>>::from")
